@@ -1,8 +1,9 @@
 /- line-protocol handlers for the dt / ymd / dt2str model -/
 import PygModel.DateParse
+import PygModel.NpDate
 
 namespace Pyg.DateParseDriver
-open Pyg Pyg.Bump Pyg.DateParse
+open Pyg Pyg.Bump Pyg.DateParse Pyg.NpDate
 
 abbrev St := Unit
 def init : St := ()
@@ -44,12 +45,26 @@ def eval (op : String) (args : List Sexp) : Option (Res Int) := do
   | "ymd", [y, m, d, h, mi, s] => pure (dtYmd (← intOf y) (← intOf m) (← intOf d) (← intOf h) (← intOf mi) (← intOf s))
   | "ymd", [y, m, d, h, mi, s, us] =>
       pure (dtYmd7 (← intOf y) (← intOf m) (← intOf d) (← intOf h) (← intOf mi) (← intOf s) (← intOf us))
-  | "date", [t] | "ts", [t] | "pd", [t] => pure (checkRange (← timeOf t))
-  | "np", [u, t] => (npTrunc (← strOf u) (← timeOf t)).map checkRange
+  | "date", [t] | "ts", [t] => pure (checkRange (← timeOf t))
   | "str", [.atom "uk", s] => dtStr true (← strOf s)
   | "str", [.atom "us", s] => dtStr false (← strOf s)
   | "rt", [t] => dtStr true (dt2str (← timeOf t))
   | _, _ => none
+
+/-- `dt(...)` of a numpy / pandas timestamp: a datetime-like Python value (PygModel/NpDate.lean) -/
+def evalPy (op : String) (args : List Sexp) : Option PyTime := do
+  match op, args with
+  | "np", [u, t] =>                       -- dt(np.datetime64(t, unit)) for a datetime t
+      let t ← timeOf t
+      if 0 ≤ t ∧ t < MAXUS then dtOfNp t (← NpUnit.ofString (← strOf u)) else none
+  | "np64", [u, v] => dtNp ⟨← intOf v, ← NpUnit.ofString (← strOf u)⟩      -- dt(np.datetime64(value, unit)) for a raw int64
+  | "pd", [t] =>                          -- dt(pd.Timestamp(t))
+      let t ← timeOf t
+      if 0 ≤ t ∧ t < MAXUS then dtStamp (stampOf t) else none
+  | "pdns", [n] => dtStamp (.stamp (← intOf n))                              -- dt(pd.Timestamp(<nanoseconds since 1970>))
+  | _, _ => none
+
+def isPyOp (op : String) : Bool := op = "np" || op = "np64" || op = "pd" || op = "pdns"
 
 def reply : Res Int → String
   | .ok t => s!"ok T:{t}"
@@ -64,7 +79,10 @@ def handle1 (op : String) (args : List Sexp) : Option String := do
       | .abs r => pure ("ok (L " ++ reply r ++ ")")
   | _, _ =>
     if op.startsWith "ymd/" then
-      (eval (op.drop 4).toString args).map fun r => reply (r.map dropTime)
+      let op' := (op.drop 4).toString
+      if isPyOp op' then (evalPy op' args).bind fun x => (ymdPy x).map fun t => reply (.ok t)
+      else (eval op' args).map fun r => reply (r.map dropTime)
+    else if isPyOp op then (evalPy op args).bind render
     else (eval op args).map reply
 
 def handle (s : St) (op : String) (args : List Sexp) : Option (St × String) :=
